@@ -915,6 +915,106 @@ func ruleC16Exit(p *Program, r *Run) {
 //   - SplitStatements is applied to the pending buffer's contents;
 //   - the statements compiled inside the loop are the range values over all pieces but the last, unmodified;
 //   - the statement compiled at end of input is the pending buffer's contents, unmodified.
+//
+// skipClient: at a `continue` of the loop in which the input is split, what the path knows about the number of pieces.
+type skipClient struct {
+	BaseClient
+	p     *Program
+	fn    string
+	stmts types.Object
+}
+
+func (c *skipClient) Stmt(e *Engine, st *State, s ast.Stmt) *State {
+	br, ok := s.(*ast.BranchStmt)
+	if !ok || br.Tok != token.CONTINUE || len(e.Frames()) > 0 || !e.Reporting() {
+		return nil
+	}
+	// the loop this continue belongs to is the loop in whose body the split result is defined
+	var loop ast.Node
+	e.P.ancestors(br, e.Func, func(anc, _ ast.Node) bool {
+		switch anc.(type) {
+		case *ast.ForStmt, *ast.RangeStmt:
+			if loop == nil {
+				loop = anc
+			}
+		}
+		return loop == nil
+	})
+	if loop == nil || !(loop.Pos() <= c.stmts.Pos() && c.stmts.Pos() < loop.End()) || br.Pos() < c.stmts.Pos() {
+		return nil
+	}
+	inner := false
+	ast.Inspect(loop, func(n ast.Node) bool {
+		switch n.(type) {
+		case *ast.ForStmt, *ast.RangeStmt:
+			if n != loop && n.Pos() <= c.stmts.Pos() && c.stmts.Pos() < n.End() {
+				inner = true
+			}
+		}
+		return true
+	})
+	if inner {
+		return nil
+	}
+	atMostOne := func(f *Fact, shift int64) bool {
+		if f == nil {
+			return false
+		}
+		if n, isInt := parseInt(f.Eq); f.HasEq && isInt && n+shift <= 1 {
+			return true
+		}
+		return f.Hi != nil && *f.Hi+shift <= 1
+	}
+	ok = atMostOne(st.Get("len("+e.objKey(c.stmts)+")"), 0)
+	if !ok {
+		// a local that holds the length, or the index of the last piece (last := len(statements) - 1)
+		ast.Inspect(e.Func.Body, func(n ast.Node) bool {
+			as, isAs := n.(*ast.AssignStmt)
+			if !isAs || ok || len(as.Lhs) != 1 || len(as.Rhs) != 1 || as.Pos() > br.Pos() {
+				return !ok
+			}
+			o := objOf(e.Info, as.Lhs[0])
+			if o == nil || !e.P.neverReassigned(o) {
+				return true
+			}
+			rhs, shift := ast.Unparen(as.Rhs[0]), int64(0)
+			if b, isB := rhs.(*ast.BinaryExpr); isB && b.Op == token.SUB {
+				if k, isC := constInt(e.Info, b.Y); isC && k >= 0 {
+					rhs, shift = ast.Unparen(b.X), k
+				}
+			}
+			call, isCall := rhs.(*ast.CallExpr)
+			if !isCall || !IsBuiltinCall(e.Info, call, "len") || len(call.Args) != 1 || e.P.entOf(call.Args[0]) != c.stmts {
+				return true
+			}
+			if atMostOne(st.GetVar(e.objKey(o)), shift) {
+				ok = true
+			}
+			return !ok
+		})
+	}
+	key := fmt.Sprintf("%s continue #%d gives up the turn only when nothing was completed", c.fn, c.ordinal(e, br))
+	e.Site("C16/carry", key, br, ok, "the split is known to have given at most one piece (no terminated statement) where the turn is given up")
+	if !ok {
+		e.Site("C16/carry", key, br, false, "the read loop goes on to the next line on a path where the split may have given a complete statement: that statement is not compiled now, stays in the pending text and is later compiled together with what follows it (two queries in one source, or an error for a statement that was fine)")
+	}
+	return nil
+}
+
+func (c *skipClient) ordinal(e *Engine, br *ast.BranchStmt) int {
+	n, idx := 0, 0
+	ast.Inspect(e.Func.Body, func(x ast.Node) bool {
+		if b, ok := x.(*ast.BranchStmt); ok && b.Tok == token.CONTINUE {
+			n++
+			if b == br {
+				idx = n
+			}
+		}
+		return true
+	})
+	return idx
+}
+
 func ruleC16Carry(p *Program, r *Run, fd *ast.FuncDecl) {
 	pkg := p.Main
 	info := pkg.TypesInfo
@@ -953,6 +1053,18 @@ func ruleC16Carry(p *Program, r *Run, fd *ast.FuncDecl) {
 	r.Check(stmts != nil && pending != nil, "C16/carry", fn+" splits the pending buffer", p.Pos(fd.Pos()), "SplitStatements(pending.String())", "the input is not split by applying parser.SplitStatements to the contents of the pending-text buffer")
 	if stmts == nil || pending == nil {
 		return
+	}
+	// a turn of the read loop is given up (`continue` before the pieces are looked at) only when nothing was
+	// completed: the split gave at most one piece on that path. Given up with a complete piece in hand, that
+	// statement waits for the next semicolon and is then compiled together with the next one.
+	if sfd := declOf(&ast.Ident{NamePos: stmts.Pos()}); sfd != nil {
+		sc := &skipClient{p: p, fn: fn, stmts: stmts}
+		se := NewEngine(p, pkg, sfd, sc)
+		se.Run(nil)
+		for _, m := range se.Errs {
+			r.Fail("C16/carry", fn+" engine (skipped turns)", "-", m)
+		}
+		se.FlushSites(r)
 	}
 	lenMinus1 := func(e ast.Expr) bool {
 		b, ok := ast.Unparen(p.DefExpr(e)).(*ast.BinaryExpr)
@@ -1439,6 +1551,233 @@ func ruleC16Inputs(p *Program, r *Run) {
 		if c.seen == 0 {
 			r.Fail("C16/inputs", fn+" returns", p.Pos(fd.Pos()), "no return of the concatenating Read is reached on a feasible path")
 		}
+	}
+}
+
+// singleClient: a return that stands before the loop over the names and hands back an input (first result not
+// nil) is reached only with at most one name.
+type singleClient struct {
+	BaseClient
+	fn   string
+	list types.Object
+	loop ast.Node
+}
+
+func (c *singleClient) Return(e *Engine, st *State, ret *ast.ReturnStmt) {
+	if ret == nil || e.Lit != nil || len(e.Frames()) > 0 || !e.Reporting() || len(ret.Results) == 0 || ret.Pos() > c.loop.Pos() {
+		return
+	}
+	if isNilIdent(e.Info, ret.Results[0]) {
+		return
+	}
+	f := st.Get("len(" + e.objKey(c.list) + ")")
+	ok := false
+	if f != nil {
+		if n, isInt := parseInt(f.Eq); f.HasEq && isInt && n <= 1 {
+			ok = true
+		}
+		if f.Hi != nil && *f.Hi <= 1 {
+			ok = true
+		}
+	}
+	if !ok {
+		// the guard of the return says so in another way: every alternative of the enclosing condition compares the
+		// list with a literal list of at most one element (slices.Equal(args, []string{"-"}))
+		if ifs, isIf := e.P.Parent(e.P.Parent(ret)).(*ast.IfStmt); isIf && e.P.Parent(ret) == ast.Node(ifs.Body) {
+			all := true
+			for _, d := range disjuncts(ifs.Cond) {
+				one := false
+				for _, cj := range conjuncts(d) {
+					call, isCall := ast.Unparen(cj).(*ast.CallExpr)
+					if !isCall || len(call.Args) != 2 {
+						continue
+					}
+					f := Callee(e.Info, call)
+					if f == nil || !(f.FullName() == "slices.Equal" || f.FullName() == "reflect.DeepEqual") {
+						continue
+					}
+					for i, a := range call.Args {
+						if objOf(e.Info, a) != c.list {
+							continue
+						}
+						if lit := litOf(e.P.Resolve(call.Args[1-i])); lit != nil && len(lit.Elts) <= 1 {
+							one = true
+						}
+					}
+				}
+				if !one {
+					// or the alternative is decided by the path facts of its own: len(list) == 0, len(list) == 1 && ...
+					for _, cj := range conjuncts(d) {
+						if b, isB := ast.Unparen(cj).(*ast.BinaryExpr); isB && (b.Op == token.EQL || b.Op == token.LSS || b.Op == token.LEQ) {
+							if call, isCall := ast.Unparen(b.X).(*ast.CallExpr); isCall && IsBuiltinCall(e.Info, call, "len") && len(call.Args) == 1 && objOf(e.Info, call.Args[0]) == c.list {
+								if k, isC := constInt(e.Info, b.Y); isC && (b.Op == token.EQL && k <= 1 || b.Op == token.LSS && k <= 2 || b.Op == token.LEQ && k <= 1) {
+									one = true
+								}
+							}
+						}
+					}
+				}
+				if !one {
+					all = false
+				}
+			}
+			ok = all
+		}
+	}
+	key := fmt.Sprintf("%s return #%d before the loop over %s", c.fn, returnOrdinal(e.Func, ret), c.list.Name())
+	e.Site("C16/inputs", key, ret, ok, "reached only with at most one name in the list")
+	if !ok {
+		e.Site("C16/inputs", key, ret, false, fmt.Sprintf("an input is handed back before the loop over %s on a path where the list may hold several names: the names after the first are never opened - their queries disappear without a message and the exit status stays 0", c.list.Name()))
+	}
+}
+
+// ruleC16Opens: the files named on the command line are each opened, in the order given. Decided on every loop of
+// the command over a list of strings in whose body a file is opened (os.Open, directly or through helpers of the
+// command that hand a parameter on to it): the name that is opened is the element of this turn - the loop's value
+// variable or the list indexed by the loop's index variable. Anything else (a fixed element, a name from outside
+// the loop) reads one file several times and the others never.
+func ruleC16Opens(p *Program, r *Run) {
+	pkg := p.Main
+	info := pkg.TypesInfo
+	isStrings := func(t types.Type) bool {
+		sl, ok := t.Underlying().(*types.Slice)
+		if !ok {
+			return false
+		}
+		b, ok := sl.Elem().Underlying().(*types.Basic)
+		return ok && b.Info()&types.IsString != 0
+	}
+	// opener: which parameter of a function of the command ends up as the name given to os.Open (-1: none)
+	openerMemo := map[*types.Func]int{}
+	var openerParam func(f *types.Func, depth int) int
+	var openedNames func(root ast.Node, depth int) []ast.Expr
+	openedNames = func(root ast.Node, depth int) []ast.Expr {
+		var out []ast.Expr
+		ast.Inspect(root, func(n ast.Node) bool {
+			call, ok := n.(*ast.CallExpr)
+			if !ok {
+				return true
+			}
+			f := Callee(info, call)
+			if f == nil {
+				return true
+			}
+			switch f.FullName() {
+			case "os.Open", "os.OpenFile", "os.ReadFile":
+				if len(call.Args) > 0 {
+					out = append(out, call.Args[0])
+				}
+				return true
+			}
+			if i := openerParam(f, depth+1); i >= 0 && i < len(call.Args) {
+				out = append(out, call.Args[i])
+			}
+			return true
+		})
+		return out
+	}
+	openerParam = func(f *types.Func, depth int) int {
+		if v, ok := openerMemo[f]; ok {
+			return v
+		}
+		openerMemo[f] = -1
+		decl, dpkg := p.DeclOf(f)
+		if decl == nil || decl.Body == nil || dpkg != pkg || depth > 3 {
+			return -1
+		}
+		var params []types.Object
+		for _, fl := range decl.Type.Params.List {
+			for _, nm := range fl.Names {
+				params = append(params, info.Defs[nm])
+			}
+		}
+		for _, name := range openedNames(decl.Body, depth) {
+			o := objOf(info, p.Resolve(name))
+			for i, po := range params {
+				if o != nil && o == po {
+					openerMemo[f] = i
+				}
+			}
+		}
+		return openerMemo[f]
+	}
+	n := 0
+	early := map[*ast.FuncDecl]bool{}
+	for _, fd := range AllFuncs(pkg) {
+		if fd.Body == nil {
+			continue
+		}
+		fn := FuncName(pkg, fd)
+		ast.Inspect(fd.Body, func(nd ast.Node) bool {
+			var list ast.Expr
+			var idx, val types.Object
+			var body *ast.BlockStmt
+			switch lp := nd.(type) {
+			case *ast.RangeStmt:
+				if t := info.TypeOf(lp.X); t == nil || !isStrings(t) {
+					return true
+				}
+				list, body = lp.X, lp.Body
+				if id, ok := lp.Key.(*ast.Ident); ok && id.Name != "_" {
+					idx = objOf(info, id)
+				}
+				if id, ok := lp.Value.(*ast.Ident); ok && id.Name != "_" {
+					val = objOf(info, id)
+				}
+			case *ast.ForStmt:
+				// for i := 0; i < len(list); i++
+				cond, ok := lp.Cond.(*ast.BinaryExpr)
+				if !ok {
+					return true
+				}
+				call, ok := ast.Unparen(cond.Y).(*ast.CallExpr)
+				if !ok || !IsBuiltinCall(info, call, "len") || len(call.Args) != 1 {
+					return true
+				}
+				if t := info.TypeOf(call.Args[0]); t == nil || !isStrings(t) {
+					return true
+				}
+				list, body = call.Args[0], lp.Body
+				idx = objOf(info, cond.X)
+			default:
+				return true
+			}
+			names := openedNames(body, 0)
+			if len(names) > 0 {
+				// what is returned before the loop over the names is the whole input only if there is at most one
+				// name: on every path to such a return the list is known to have no more than one element
+				if lo := objOf(info, list); lo != nil && !early[fd] {
+					early[fd] = true
+					sc := &singleClient{fn: fn, list: lo, loop: nd}
+					se := NewEngine(p, pkg, fd, sc)
+					se.Run(nil)
+					for _, m := range se.Errs {
+						r.Fail("C16/inputs", fn+" engine (returns before the loop)", "-", m)
+					}
+					se.FlushSites(r)
+				}
+			}
+			for _, name := range names {
+				n++
+				rn := ast.Unparen(p.Resolve(name))
+				ok := false
+				if o := objOf(info, rn); o != nil && val != nil && o == val {
+					ok = true
+				}
+				if ix, isIx := rn.(*ast.IndexExpr); isIx && idx != nil {
+					if objOf(info, p.Resolve(ix.Index)) == idx && objOf(info, ix.X) != nil && objOf(info, ix.X) == objOf(info, list) {
+						ok = true
+					}
+				}
+				r.Check(ok, "C16/inputs", fmt.Sprintf("%s loop over %s opens %s", fn, exprStr(list), exprStr(name)), p.Pos(name.Pos()),
+					"the file opened in a turn of the loop over the names is the name of that turn",
+					fmt.Sprintf("the loop over %s opens %s in every turn, not the name of the turn: one file is read several times and the other files are never read - their queries disappear without a message and the exit status stays 0", exprStr(list), exprStr(name)))
+			}
+			return true
+		})
+	}
+	if n == 0 {
+		r.Note("C16/inputs: no loop over a list of names opens a file in the command; the rule about opening every argument has nothing to decide")
 	}
 }
 
